@@ -195,7 +195,7 @@ impl Check for Merkle {
             let was_claimed: std::vec::Vec<bool> = (0..n as u32 + 2).map(|x| c.is_claimed(&x)).collect();
             let got = c.try_claim(&index, &a(receiver), &amount, &pv).is_ok();
             let exp = effective == Corrupt::None && !claimed[*k] && pool >= amount;
-            st.hit(if got { "tx.ok" } else { "tx.refused" });
+            st.tx(if effective == Corrupt::None { "claim.honest" } else { "claim.corrupted" }, got);
             if got != exp {
                 let check = if got { if effective != Corrupt::None { "verify.rejects_corrupted" } else { "claim.once_forever" } } else { "verify.accepts_honest" };
                 return Err(violation(check, "claim", i, format!("{s:?}: real {got}, model {exp}; claimed[{k}]={} pool={pool} leaves={n} proof_len={}", claimed[*k], proof.len())));
